@@ -215,13 +215,13 @@ def _ddmin_list(items, test):
     return items
 
 
-def minimise(mod, case, sig, budget=400):
+def minimise(mod, case, sig, budget=400, deadline=None):
     """Shrink ops, faults, schedule and world while the same violation class
     persists.  Every candidate is executed from the explicit case (no PRNG)."""
     count = [0]
 
     def ok(c):
-        if count[0] >= budget:
+        if count[0] >= budget or (deadline is not None and time.time() > deadline):
             return False
         count[0] += 1
         return fails_with(mod, c, sig)
@@ -456,6 +456,7 @@ def run_batch(prop, tier, master, nruns, workers, wall_cap_s, selftest_n):
                 e['cases'].append((case, v))
     reports = []
     unreproducible = 0
+    min_deadline = time.time() + 240      # wall budget for all minimisation of this batch (real-time cap only)
     for sig, e in by_sig.items():
         chosen = None
         for case, v in e['cases']:
@@ -469,7 +470,7 @@ def run_batch(prop, tier, master, nruns, workers, wall_cap_s, selftest_n):
             continue
         # full budget for the first signatures, a token one for the tail (cascades of one defect)
         nth = sum(1 for r_ in reports if r_.get('replay') or r_.get('known'))
-        small = minimise(mod, chosen[0], sig, budget=400 if nth < 2 else (120 if nth < 4 else 30))
+        small = minimise(mod, chosen[0], sig, budget=400 if nth < 2 else (120 if nth < 4 else 30), deadline=min_deadline)
         path, doc = write_replay(mod, small, chosen[1], tag=core.digest(sig)[:6])
         repro, rout = replay_in_fresh_process(path)
         known = match_known(prop, sig)
